@@ -203,9 +203,23 @@ def k4(prog: Program, chk: Check) -> None:
              "the imaginary-time slice; the slice comes from the bath temperature; the free "
              "propagator is exp(-H dt/2) (imaginary time step -i dt)", floor=4)
     u = prog.unit("tempo:GibbsTempo._prepare_backend")
-    co = [v for v in prog.nested_units(u) if v.name == "coeffs"]
+    # the callable handed to the back end as `coefficients`: a closure, a bound method or a lambda
+    co = []
+    be_calls = [c for c in walk_local(u.node) if isinstance(c, ast.Call) and call_name(c) == "TIBaseBackend"]
+    if len(be_calls) == 1:
+        from oqv.astutil import bind_args
+        be = prog.cls("backends.tempo_backend:TIBaseBackend")
+        arg = bind_args(be_calls[0], [p for p in be.methods["__init__"].params if p != "self"]).get("coefficients")
+        if isinstance(arg, ast.Name):
+            co = [v for v in prog.nested_units(u) if v.name == arg.id]
+        elif isinstance(arg, ast.Attribute) and isinstance(arg.value, ast.Name) and arg.value.id == "self":
+            ci = prog.class_of_unit(u)
+            mu = prog.find_method(ci, arg.attr) if ci is not None else None
+            co = [mu] if mu is not None else []
+        elif isinstance(arg, ast.Lambda):
+            co = [v for v in prog.nested_units(u) if v.node is arg]
     if not co:
-        raise AnalysisError("K4: coeffs closure vanished")
+        raise AnalysisError("K4: the coefficients callable handed to TIBaseBackend was not found")
     calls = [c for c in walk_local(co[0].node) if isinstance(c, ast.Call)
              and isinstance(c.func, ast.Attribute) and c.func.attr == "correlation_2d_integral"]
     if len(calls) != 1:
